@@ -27,6 +27,7 @@ def run_entry(model: Model, func_short: str, make_args, hooks=None, limit=300, p
             it, val = res
             outcomes.append(Outcome("return", val, "", list(trail.log), it.facts, it.sp))
             outcomes[-1].info = it.info
+            outcomes[-1].trace = list(it.trace)
             outcomes[-1].checks = it.checks
             outcomes[-1].code_obligations = list(it.sp.obligations)   # identifications made by the code, not by the spec
         elif isinstance(exc, Raised):
